@@ -19,6 +19,8 @@ func checkC17(p *Prog, r *Report) {
 	r.rule("C17.equal-counts: Equal compares the lengths of the two attribute lists and of the two relationship lists with != and returns false when they differ")
 	checkSetAlwaysStores(p, r)
 	checkEqualCounts(p, r)
+	r.rule("C17.check-complete: every return of SoftResource.check lies behind its loops that zero-fill missing attributes and relationships (shared with C09)")
+	checkSoftCheckComplete(p, r, "C17")
 	r.rule("R1 kind table: zero values (typed nil pointers for nullable kinds), name tables and %T classification (see C01), and the Set gate of SoftResource on kind and nullability")
 	r.rule("C17.zero-fill: SoftResource.check stores, for every attribute without a value, GetZeroValue(<that attribute's kind>, <that attribute's nullability>), and for every relationship without a value \"\" when it is to-one and an empty []string otherwise")
 	r.rule("C17.get-returns-stored: SoftResource.Get returns GetID() for \"id\", the value found in the data map under the key for fields of the type, and nil otherwise - nothing is transformed on the way out")
@@ -632,4 +634,58 @@ func checkEqualCounts(p *Prog, r *Report) {
 		r.decide(good, "C17.equal-counts", "Equal:"+p.describe(bo), p.pos(bo.Pos()), "different lengths give false", "Equal does not reject resources whose field lists have different lengths with !=: a resource whose fields are a prefix of the other's compares equal (and Equal is not symmetric)")
 	})
 	r.floor("length guards in Equal", n, 2)
+}
+
+// checkSoftCheckComplete: (*SoftResource).check - the normalisation every
+// accessor runs first - reaches each of its returns only through its loops over
+// the type's attributes and relationships (which store the typed zero value of
+// every missing field) and, when there are more stored values than fields,
+// through the loop that drops stale ones: no shortcut returns before them.
+// Shared by C17 and C09 (Less and the filters rely on Get returning typed values).
+func checkSoftCheckComplete(p *Prog, r *Report, prefix string) {
+	f := p.Fn("(*SoftResource).check")
+	if f == nil {
+		r.fail("anchor (*SoftResource).check not found")
+		return
+	}
+	r.fn(funcName(f))
+	var fill []*ssa.Next
+	for _, ld := range findLoops(f) {
+		if ld.kind != "map" {
+			continue
+		}
+		if _, fl, ok := fieldLoad(ld.src); ok && (fl == "Attrs" || fl == "Rels") {
+			stores := false
+			for b := range ld.blocks {
+				for _, ins := range b.Instrs {
+					if _, ok := ins.(*ssa.MapUpdate); ok {
+						stores = true
+					}
+				}
+			}
+			if stores {
+				fill = append(fill, ld.next)
+			}
+		}
+	}
+	r.floor(prefix+": zero-filling loops in SoftResource.check", len(fill), 2)
+	n := 0
+	eachInstr(f, func(ins ssa.Instruction) {
+		ret, ok := ins.(*ssa.Return)
+		if !ok {
+			return
+		}
+		n++
+		for _, nx := range fill {
+			nx := nx
+			passes := mustPassInstr(f, ret, func(i2 ssa.Instruction) bool { return i2 == ssa.Instruction(nx) })
+			what := "attributes"
+			if _, fl, _ := fieldLoad(nx.Iter.(*ssa.Range).X); fl == "Rels" {
+				what = "relationships"
+			}
+			r.decide(passes, prefix+".check-complete", "SoftResource.check:return@"+p.pos(ret.Pos())+":"+what, p.pos(ret.Pos()), "the loop that zero-fills missing "+what+" runs before this return",
+				"SoftResource.check can return without having run the loop that stores the typed zero value of missing "+what+": Get then returns nil (or a stale value) for such a field, and callers that assert its type panic or mis-sort")
+		}
+	})
+	r.floor(prefix+": returns of SoftResource.check", n, 1)
 }
